@@ -279,8 +279,7 @@ func flightEpisode(c *Ctx, n int, fail string, simple bool) {
 	switch fail {
 	case "err": // a queueing error aborts the transaction: EXEC answers EXECABORT (Redis >= 2.6.5)
 		rule = fakeredis.Rule{Match: fakeredis.Cmd("EXEC"), Times: 1, Gate: gate, Err: "EXECABORT Transaction discarded because of previous errors."}
-	case "drop":
-		rule.Fault = fakeredis.DropAfter
+	case "drop": // the reply is held; the connection is killed while all callers are pending (below)
 	case "execabort":
 		rule = fakeredis.Rule{Match: fakeredis.Cmd("EXEC"), Times: 1, Gate: gate, Reply: []byte("_\r\n")}
 	}
@@ -302,6 +301,13 @@ func flightEpisode(c *Ctx, n int, fail string, simple bool) {
 		}(i)
 	}
 	time.Sleep(time.Duration(flightWaitMs) * time.Millisecond)
+	if fail == "drop" {
+		for id := 1; id <= srv.NumConns(); id++ {
+			if ci, ok := srv.Conn(id); ok && ci.Tracking {
+				srv.Kill(id)
+			}
+		}
+	}
 	close(gate)
 	done := make(chan struct{})
 	go func() { wg.Wait(); close(done) }()
